@@ -318,6 +318,8 @@ ERR_CLAUSES = [
     ('empty-content', '<div tal:content="">k</div>'),
     ('fill-slot-outside-use', '<div metal:fill-slot="x">k</div>'),
     ('name-outside-translate', '<div i18n:name="x">k</div>'),
+    ('end-tag-without-name', '<div>a</></div>'),
+    ('end-tag-blank-before-name', '<div>a</ div>'),
     ('data-unknown-statement', '<div data-tal-contnt="a">k</div>'),
     ('data-bad-define', '<div data-tal-define="x">k</div>'),
     ('unknown-statement-renamed-prefix', '<div xmlns:t="http://xml.zope.org/namespaces/tal" t:contnt="a">k</div>'),
